@@ -8,6 +8,7 @@ import (
 	"net/http"
 	"time"
 
+	"github.com/buildbuildio/pebbles/common/verifhook"
 	"github.com/buildbuildio/pebbles/planner"
 	"github.com/buildbuildio/pebbles/requests"
 	"github.com/gobwas/ws"
@@ -68,10 +69,12 @@ func (g *Gateway) subscriptionHandler(w http.ResponseWriter, r *http.Request) {
 
 	subDict := make(subscriptionDict)
 
+	defer verifhook.At("H.done", conn)
 	defer func() {
 		defer func() {
 			recover()
 		}()
+		verifhook.At("H.exit", conn)
 		// gracefully close connection
 		body := ws.NewCloseFrameBody(ws.StatusNormalClosure, "")
 		frame := ws.NewCloseFrame(body)
@@ -83,13 +86,16 @@ func (g *Gateway) subscriptionHandler(w http.ResponseWriter, r *http.Request) {
 		}
 
 		// close conn
+		verifhook.At("H.connClose", conn)
 		conn.Close()
 
 		// close all running handlers
+		verifhook.At("H.cleanAll", conn)
 		subDict.CleanAll()
 	}()
 
 	for {
+		verifhook.At("H.read", conn)
 		msg, err := wsutil.ReadClientText(conn)
 		if err != nil {
 			return
